@@ -284,6 +284,16 @@ def _pipeline(model, sel, L, selected, addrs):
             _, sub_key = jrand.split(key)  # HMC.edit: `key, sub_key = jrand.split(key)`
             momenta, _ = sample_momenta(sub_key, grads)
             out["p0"] = _read(momenta, addrs, selected)
+            # the momentum refresh the invariance argument needs: every selected leaf gets its own
+            # standard-normal draw, leaf i from fold_in(key, i) (computed here with jax / TFP directly)
+            import jax
+            import jax.numpy as jnp
+            from tensorflow_probability.substrates import jax as tfp
+
+            leaves, treedef = jax.tree.flatten(grads)
+            ref = [tfp.distributions.Normal(jnp.zeros(v.shape), 1.0).sample(seed=jrand.fold_in(sub_key, i))
+                   for i, v in enumerate(leaves)]
+            out["p0_ref"] = _read(jax.tree.unflatten(treedef, ref), addrs, selected)
             out["g0"] = _read(grads, addrs, selected)
             out["q0"] = _read(values, addrs, selected)
         new_tr, w, _, _ = HMC(sel, eps, L).edit(key, tr, argdiffs)
@@ -315,7 +325,7 @@ def impl_case(case):
         _JIT_CACHE[shape_key] = f
     raw = f(key, chm, eps, args)
     out = {}
-    for k in ("x0", "xL", "p0", "g0", "q0"):
+    for k in ("x0", "xL", "p0", "p0_ref", "g0", "q0"):
         out[k] = [float(v) for v in np.asarray(raw[k]).reshape(-1)] if k in raw else []
     for k in ("s0", "sL", "alpha"):
         out[k] = float(raw[k])
@@ -463,6 +473,11 @@ def evaluate(ctx: Ctx, tagged: list) -> int:
             nfail += 1
             continue
         ctx.traces_validated += 1
+        if im.get("p0_ref") and im["p0_ref"] != im["p0"]:
+            ctx.fail("predicate", case, {"momenta": im["p0"], "independent_draws": im["p0_ref"]},
+                     {"call": "sample_momenta", "feature": "momenta-not-independent-per-leaf"},
+                     "momentum refresh: leaf i is a standard-normal draw from fold_in(key, i)")
+            nfail += 1
         mo_raw = next(model_out)
         mo_sx = common.parse_sx(mo_raw)
         if mo_sx[0] != "ok":
